@@ -123,7 +123,11 @@ func c18Exec(c *engine.Ctx, cs c18Case) {
 			return
 		}
 		bm, _ := ref.Observe(back)
-		if bm == nil || bm.Kind != g.Kind || bm.Layout != g.Layout || !sameStructure(bm, g) {
+		wantKind := g.Kind
+		if wantKind == ref.LinearRing {
+			wantKind = ref.LineString // WKT has no LINEARRING: the encoder writes a ring as a LINESTRING
+		}
+		if bm == nil || bm.Kind != wantKind || bm.Layout != g.Layout || !sameStructure(bm, g) {
 			fail("structure", fmt.Sprintf("output %q parses to a different type/structure: %s", clipStr(s, 200), bm))
 			return
 		}
@@ -209,7 +213,11 @@ func clipStr(s string, n int) string {
 func sameStructure(a, b *ref.G) bool {
 	sz := func(g *ref.G) string {
 		var sb strings.Builder
-		fmt.Fprintf(&sb, "%d|%d|", g.Kind, len(g.C0))
+		k := g.Kind
+		if k == ref.LinearRing {
+			k = ref.LineString // written and read back as a LINESTRING
+		}
+		fmt.Fprintf(&sb, "%d|%d|", k, len(g.C0))
 		for _, c := range g.C1 {
 			fmt.Fprintf(&sb, "%d,", len(c))
 		}
@@ -248,11 +256,27 @@ func c18Shapes(l geom.Layout, next func() ref.F) []*ref.G {
 		}
 		return c
 	}
+	// polygon rings close in X, Y and Z; the M of the closing position is a value of its own
 	ring := func() []ref.C {
 		a := co()
-		return []ref.C{a, co(), co(), append(ref.C{}, a...)}
+		z := append(ref.C{}, a...)
+		if mi := l.MIndex(); mi >= 0 {
+			z[mi] = next() // the WKT parser compares X, Y and Z for closure; M is a measure
+		}
+		return []ref.C{a, co(), co(), z}
+	}
+	// a LinearRing handed to the encoder directly is written as a LINESTRING, which need not close
+	// at all: its last position agrees with the first in X and Y only
+	looseRing := func() []ref.C {
+		a := co()
+		z := co()
+		z[0], z[1] = a[0], a[1]
+		return []ref.C{a, co(), co(), z}
 	}
 	return []*ref.G{
+		{Kind: ref.LinearRing, Layout: l, C1: ring()},
+		{Kind: ref.LinearRing, Layout: l, C1: looseRing()},
+		{Kind: ref.LinearRing, Layout: l, C1: []ref.C{co(), co(), co()}},
 		{Kind: ref.Point, Layout: l, C0: co()},
 		{Kind: ref.LineString, Layout: l, C1: []ref.C{co(), co()}},
 		{Kind: ref.Polygon, Layout: l, C2: [][]ref.C{ring(), ring()}},
@@ -328,7 +352,7 @@ func c18Run(c *engine.Ctx) {
 				for _, g := range c18Shapes(l, next) {
 					for _, d := range []int{tj.d, max(tj.d-1, 0), min(tj.d+1, 15)} {
 						c18Exec(c, c18Case{Codec: "wkt", G: g, D: d})
-						if l != geom.XYM {
+						if l != geom.XYM && g.Kind != ref.LinearRing {
 							for bb := 0; bb < 3; bb++ {
 								c18Exec(c, c18Case{Codec: "geojson", G: g, D: d, BBox: bb})
 							}
